@@ -124,6 +124,21 @@ CLAIMED.update({
     technique="contract-based deductive verification: per-message-class units, symbolic tables + record heap, z3"),
 })
 
+CLAIMED.update({
+ "C11": dict(category="proof",
+    text="The EVENT arm of ApplicationSession.onMessage is proved against a ghost invocation log: exactly the handlers "
+         "attached to the subscription id when the event arrives are invoked, once each, in subscription order (loop "
+         "invariant over an unbounded handler list, under a re-entrancy contract that lets a handler unsubscribe itself "
+         "during dispatch); every handler is handed exactly the published keyword arguments plus its own details "
+         "argument (obligation at each invocation); an id the session does not hold raises ProtocolError, an id whose "
+         "list is empty invokes nothing; _unsubscribe removes exactly that subscription, deactivates it and sends "
+         "UNSUBSCRIBE iff it was the last one (SUBSCRIBED/UNSUBSCRIBED arms: see C04).",
+    note="Trusted: z3, pyvc (tables of lists stored by value with live views), txaio.as_future runs a synchronous handler "
+         "at once, handlers re-enter only by unsubscribing themselves (other re-entrant calls unmodelled), positional "
+         "arguments not modelled in the Event arm, EventDetails contents opaque, encrypted payloads (C20) excluded.",
+    technique="contract-based deductive verification: ghost invocation log, loop invariants, z3"),
+})
+
 PENDING_REASON = "contracts for this property are not yet discharged in this snapshot of /verif (build in progress, see DESIGN.md section 8); nothing is claimed"
 
 def main():
